@@ -164,4 +164,45 @@ example :
      !accepted (validateOutboundInternal (.publish demo) (some { maximumQos := 1, maximumPacketSize := 12 }) 0 none)) = true := by
   decide
 
+/-- **A SUBSCRIBE whose encoded size cannot be expressed in the fixed header never passes send-time validation** - e.g.
+    65541 filters of 65535 bytes, 4 GiB: it is failed locally instead of being written with a truncated length. -/
+theorem oversized_subscribe_never_accepted (p : Subscribe) (s : Settings) (rl pl : Nat)
+    (hl : subscribeLengths5 p = some (rl, pl)) (hbig : rl > 268435455) :
+    validateOutboundInternal (.subscribe p) (some s) 0 none = .error .encodingFailure := by
+  have hv : vliSize rl = none := by
+    unfold vliSize
+    have h1 : ¬ rl < 128 := by omega
+    have h2 : ¬ rl < 16384 := by omega
+    have h3 : ¬ rl < 2097152 := by omega
+    have h4 : ¬ rl < 268435456 := by omega
+    simp [h1, h2, h3, h4]
+  unfold validateOutboundInternal vSubscribeInternal vSubscribeInternalWith sizeCheck
+  simp [hl, hv]
+  rfl
+
+theorem oversized_unsubscribe_never_accepted (p : Unsubscribe) (s : Settings) (rl pl : Nat)
+    (hl : unsubscribeLengths5 p = some (rl, pl)) (hbig : rl > 268435455) :
+    validateOutboundInternal (.unsubscribe p) (some s) 0 none = .error .encodingFailure := by
+  have hv : vliSize rl = none := by
+    unfold vliSize
+    have h1 : ¬ rl < 128 := by omega
+    have h2 : ¬ rl < 16384 := by omega
+    have h3 : ¬ rl < 2097152 := by omega
+    have h4 : ¬ rl < 268435456 := by omega
+    simp [h1, h2, h3, h4]
+  unfold validateOutboundInternal vUnsubscribeInternal vUnsubscribeInternalWith sizeCheck
+  simp [hl, hv]
+  rfl
+
+/-- the lengths of a SUBSCRIBE / UNSUBSCRIBE with `n` more subscriptions / filters of `len` bytes are those of the packet
+    without them plus `n * (3 + len)` / `n * (2 + len)`: what lets the correspondence check feed 4 GiB packets as two numbers -/
+theorem padded_lengths (p : Subscribe) (u : Unsubscribe) (n len : Nat) :
+    subscribeLengths5 { p with subscriptions := p.subscriptions ++ List.replicate n (padSub len) } =
+      (subscribeLengths5 p).map (fun l => (l.1 + n * (3 + len), l.2)) ∧
+    unsubscribeLengths5 { u with topicFilters := u.topicFilters ++ List.replicate n (List.replicate len 97) } =
+      (unsubscribeLengths5 u).map (fun l => (l.1 + n * (2 + len), l.2)) := by
+  constructor
+  · rw [subscribeLengths5_pad]; simp [padSub]
+  · rw [unsubscribeLengths5_pad]; simp
+
 end GV.Props.C16
